@@ -4,12 +4,34 @@ The three partial/<backend> source sets are compiled (ASan+UBSan) against adapte
 converter (shim/idn), so conversions are equivalent by construction; the same workloads are run through the three builds and
 the observation records compared; the idnkit adapter keeps a create/destroy ledger that is checked after every call history."""
 import collections, os, random
-from .. import core, ctx as _ctx, histmon as HM, model as _model, driver, addrgen as AG
+from .. import core, build, ctx as _ctx, histmon as HM, model as _model, driver, addrgen as AG
 from . import c08, c13
 
 PROP = "C18"
 SHIM = os.path.join(core.VERIF, "shim", "idn")
 BACKENDS = ["idn2", "idn", "idnkit"]
+
+
+def w_errno(wexes, exes, addrs):
+    """Records with a converter that leaves errno = ENOENT behind must equal the records of the ordinary build, per back end."""
+    part = {"counters": collections.Counter(), "viol": [], "samples": [], "distinct": 0, "sets": {}}
+    lines = [driver.A_line(a, sections=1, modes=8 | 1, tlds=3) for a in addrs]
+    for b in wexes:
+        env = build.san_env({"VERIF_IDN_ERRNO": "1"})
+        r1, c1 = driver.run_lines_resilient(wexes[b], lines, env=env)
+        r0, c0 = driver.run_lines_resilient(exes[b], lines, env=build.san_env())
+        for idx, sig, err in c1:
+            part["viol"].append(("errno-left-by-converter/%s/crash/%s" % (b, sig), {"address": core.b2s(addrs[idx]) if idx >= 0 else ""}, {"stderr": err[-1200:]}))
+        for a, x, y in zip(addrs, r1, r0):
+            if x is None or y is None:
+                continue
+            part["counters"]["errno.compared"] += 1
+            if x["hl"] != y["hl"]:
+                k = next(k for k in x["hl"] if x["hl"][k] != y["hl"].get(k))
+                part["viol"].append(("errno-left-by-converter/%s/record-differs" % b, {"address": core.b2s(a), "backend": b, "mode_tld": k},
+                                     {"with_errno_left_behind": x["hl"][k], "ordinary": y["hl"].get(k)}))
+    part["distinct"] = len(addrs)
+    return part
 
 
 def w_records(exes, addrs, allow):
@@ -181,6 +203,17 @@ def main(tier, seed):
     dv = sorted({b"user@" + d for d in dsel if d and b"\x00" not in d})
     for i in range(0, len(dv), 1500):
         jobs.append((w_records, (exes, dv[i:i + 1500], mdl.default_allow)))
+    # the converter leaves a non-zero errno behind although it succeeded / the application enters with a stale errno: the IDN return
+    # code alone decides and names the message (link-time wrap of the converter, all three source sets go through it)
+    wexes = {}
+    for b in BACKENDS:
+        kw = dict(backend=b, ldflags=("-Wl,--wrap=idn2_to_ascii_8z",), driver_defs=("VERIF_WRAP_IDN2",))
+        if b != "idn2":
+            kw.update(extra_inc=(SHIM,), extra_objs_srcs=adapter)
+        wexes[b] = cx.exe("asan-wrap-%s" % b, **kw)
+    esel = dv[:: (3 if q else 1)] + addrs[seed % 7::7]
+    for i in range(0, len(esel), 1500):
+        jobs.append((w_errno, (wexes, exes, esel[i:i + 1500])))
     codes = [0] + [mdl.class_number(c) for c in _model.CLASSES] + [-v for v in sorted(mdl.eeav.values()) if v > 0]
     for rc in codes:
         jobs.append((w_policy, (pexes, rc)))
